@@ -46,6 +46,15 @@ Theorem C18_server_monitor : forall (T C : Type) (tp : transport T response cmsg
   tfuel_ok tp tfuel -> c18s_ok (fst (run tp ctl tfuel c t0 ops)) = true.
 Proof. exact ServerProps.C18_server_monitor. Qed.
 
+(* ---- part threads (monitor only): what an accepted trace of calls made from several OS threads
+   guarantees ---- *)
+From TarpcV Require Import SpanThreads SpanThreadsProofs.
+Theorem C18_threads_sound : forall calls tr, c18t_ok calls tr = true ->
+  NoDup (map (fun e => snd e) tr)
+  /\ forall b t sp, In (b, t, sp) tr ->
+       exists ct cs, nth_error calls (N.to_nat b) = Some (ct, cs) /\ t = ct /\ sp <> cs.
+Proof. exact c18t_sound. Qed.
+
 Print Assumptions C18_client_monitor.
 Print Assumptions C18_server_monitor.
 
@@ -121,3 +130,4 @@ Proof. vm_compute. repeat split; reflexivity. Qed.
 
 Print Assumptions C18_chain_wire.
 Print Assumptions C18_chain_wire_all.
+Print Assumptions C18_threads_sound.
